@@ -56,7 +56,7 @@ FlatX(ks) == <<"dc", "K", Fields(ks), << <<"extras", <<"cv", "iv">> >> >> >>
 FlatO(ks, o) == <<"dc", "K", Fields(ks), << <<o, TRUE>> >> >>
 Classes == { Flat(ks) : ks \in Layouts } \cup { FlatX(ks) : ks \in { l \in Layouts : Len(l) <= 2 } }
            \cup { FlatO(ks, o) : ks \in { l \in Layouts : Len(l) <= 2 }, o \in {"frozen", "slots"} }
-           \cup { Chain3(Flat(ks)) : ks \in Layouts }                       \* K(M3(G3)): the middle class's declarations are in effect
+           \cup { Chain3(Flat(ks)) : ks \in { l \in Layouts : Len(l) <= 3 } }                       \* K(M3(G3)): the middle class's declarations are in effect
            \cup UNION { { Split(ks, s) : s \in 1..Len(ks) } : ks \in { l \in Layouts : Len(l) >= 2 } }
            \cup { c \in Overrides : WellFormedCls(c) }
 Good(f) == IF FType(f) = IntL THEN L(<<I(8), I(9)>>) ELSE I(40)
